@@ -38,4 +38,14 @@ PROPS = {
         "trusted_base": BASE_TRUST,
         "assumptions": ["header fields are u32 (NonZeroU32 mip count), as the Rust types guarantee"],
     },
+    "C08": {
+        "gen": False,
+        "kernel_sample": 300,
+        "rule": "exhaustive operation sequences of depth 4 (quick) / 6 (thorough) over the 7 operation kinds on 22 layouts (texture 1/3/full/over-full mips, "
+                "array 0/3/2, cube, cube+mips, cube array, 8 partial cubes, 3 volumes, 1D) with one format per family rotating, plus seeded random sequences "
+                "of depth 5..40 incl. wrong-size and out-of-bounds variants on all 5 formats, plus skip/rewind-only sequences on layouts above i64::MAX bytes; "
+                "after every call: verdict, next surface size/len/is-mipmap, reader position, and for cube reads which cells were written with which array element; distinct = distinct case lines",
+        "trusted_base": BASE_TRUST + ["the decode call itself is abstracted to 'consumes exactly the surface length' (that is C06's theorem and check)"],
+        "assumptions": ["mip count is NonZeroU32 (>= 1)", "reader is an in-memory cursor: seeks fail only for amounts above i64::MAX or negative positions"],
+    },
 }
